@@ -174,8 +174,11 @@ func ToChannel[T any](size int) func(Observable[T]) Observable[<-chan Notificati
 			destination.NextWithContext(subscriberCtx, ch)
 
 			return func() {
+				// the channel must be closed even when a teardown upstream panics: otherwise
+				// the consumer ranging over it never terminates.
+				defer closeChan()
+
 				subscriptions.Unsubscribe()
-				closeChan()
 			}
 		})
 	}
